@@ -85,7 +85,7 @@ META = {
         "(validated on every run against the RK4 master-equation integrator: obligation C09.oracle.closed_form_vs_master_equations)",
         "the master equations themselves (dp0/dt = mu-(lam+mu+psi)p0+lam p0^2, d log g/dt = -(lam+mu+psi)+2 lam p0, event rules in specs/bdsampling.py) and a fixed-step RK4",
         "tree-space convention: oriented trees (Stadler 2010); with a removal probability torchtree follows BEAST2's sampled-ancestor convention "
-        "2^(N-1) x oriented — a constant in every parameter, granted to the removal obligations and checked separately by C09.single_epoch.removal_one_equals_none",
+        "2^(N-1) x oriented — a constant in every parameter, granted to the removal obligations and pinned exactly by C09.single_epoch.removal_one_vs_none",
         "module-namespace stubs inside torchtree.evolution.bdsk / birth_death for symbolic runs: torch.zeros/ones/full/empty (vt.stubs), "
         "torch.zeros_like -> symbolic zeros, torch.tensor -> exact symbolic constant (so torch.tensor(2.0).log() is log 2 exactly)",
         "options: process_object / Parameter replaced in the module namespace by a tagging stub, constructor replaced by a capturing subclass",
@@ -227,9 +227,11 @@ def _log2(mk):
 
 
 def _plainly_false(mk, diff):
-    """cheap numeric look at a symbolic log-difference at a few points of the current path: True when it is clearly non-zero.
-    Only used to choose the FORM of the claim (never to discharge anything): a false identity is handed to the harness in log
-    space, where refuting it needs no polynomial expansion; a true one is handed over as exp(diff) ≡ 1, which the normal form closes."""
+    """cheap float look at a symbolic log-difference at a few points of the current path (domain + path condition, every log
+    argument positive): returns (env, value) where it is clearly non-zero, else None.  A true identity is then handed to the
+    harness as exp(diff) ≡ 1, which the normal form closes; a false one is refuted right here at that point - expanding
+    exp(diff) of a FALSE identity is what explodes, and the log form cannot be given to the harness because vt.nf splits
+    log(ab) into log a + log b formally (harmless under exp, but mpmath then sees 2πi artefacts when a, b < 0)."""
     from vt.cond import current_path
     from vt.scenario import _conds_hold, sample_env
     rng = random.Random(20240917)
@@ -241,23 +243,27 @@ def _plainly_false(mk, diff):
             if not _conds_hold(conds, env):
                 continue
             v = float(nf.evaluate(diff, env))
-        except (ZeroDivisionError, ValueError, OverflowError, KeyError):
+        except (ZeroDivisionError, ValueError, OverflowError, KeyError, TypeError):
             continue
-        if v != v:
+        if v != v or abs(v) == float("inf"):
             continue
         if abs(v) > 1e-6:
-            return True
+            return env, v
         seen += 1
         if seen >= 3:
-            return False
-    return False
+            return None
+    return None
 
 
 def _ratio_claims(name, code, spec, shape, mk=None):
     if code is None:
         return [("true", "one_value_returned", False, "result shape %s" % (shape,))]
-    if mk is not None and mk.symbolic and _plainly_false(mk, code - spec):
-        return [("eq", name, [code], [spec])]
+    if mk is not None and mk.symbolic:
+        bad = _plainly_false(mk, code - spec)
+        if bad is not None:
+            env, v = bad
+            raise Refuted("claim %s: log density of the code minus the specified one is %.12g (not 0) at %s" % (name, v, env),
+                          witness={"claim": name, "env": env, "log_difference": v})
     return [("eq", name, [sexp(code - spec)], [1.0])]
 
 
@@ -298,8 +304,33 @@ def scn_single_epoch(T, n0, rho_mode, survival, removal, origin_mode="origin", t
     return scn
 
 
+def scn_density(T, n0, rho_mode, survival, removal=None):
+    """for other properties (C10/C12): the same set-up with the PLAIN claim ("eq", "log_density", code_value, [oracle log density]);
+    inputs (declared through mk): lam[0], A[0], v[0] (rates, see _rates), beta[0] (rho, when rho_mode == 'sym'), r[0] (removal == 'sym'),
+    x0[0] (origin), y[k] serial tip heights, h[T-1] internal heights.  Not an obligation of C09 (the log-space form is closed here via exp)."""
+    def scn(mk):
+        import torchtree.evolution.bdsk as bd
+        lam, mu, psi, A, v = _rates(mk)
+        rho, rho_s, rho_pos = _rho(mk, rho_mode, lam, A, v)
+        r, r_s = _removal(mk, removal)
+        org = mk.real("x0", (1,), lo=0)
+        _float_guard(mk, el(A, (0,)), el(org, (0,)))
+        nh, ys, hs, ysl, hsl = _heights(mk, T, n0, below=el(org, (0,)))
+        with symbolic_factories(bd, extra=EXTRA, enabled=mk.symbolic):
+            res = bd.PiecewiseConstantBirthDeath(lam, mu, psi, rho=rho, origin=org, survival=survival, removal_probability=r).log_prob(nh)
+        e = lambda t: el(t, (0,))
+        spec = _oracle_single(mk, e(org), hsl, ysl, n0, e(lam), e(mu), e(psi), rho_s, rho_pos, r_s, survival)
+        if r is not None:
+            spec = spec + (T - 1) * _log2(mk)
+        return [("eq", "log_density", res, [spec])]
+    return scn
+
+
 def scn_removal_consistency(T, n0, rho_mode, survival):
-    """removal probability 1 is the model without a removal probability (Stadler et al. 2013): same density"""
+    """removal probability 1 is the model without a removal probability (Stadler et al. 2013) up to the tree-space convention: with a removal
+    probability the code counts BEAST2 sampled-ancestor trees, 2^(N-1) per oriented tree, so the two log densities differ by exactly
+    (N-1) log 2 — a constant in every parameter, which the repository's BEAST2 reference tests pin down.  (An earlier version of this
+    obligation demanded equality: more than the property states; corrected, see DESIGN 10.3.)"""
     def scn(mk):
         import torchtree.evolution.bdsk as bd
         lam, mu, psi, A, v = _rates(mk)
@@ -311,7 +342,7 @@ def scn_removal_consistency(T, n0, rho_mode, survival):
             a = bd.PiecewiseConstantBirthDeath(lam, mu, psi, rho=rho, origin=org, survival=survival).log_prob(nh)
             b = bd.PiecewiseConstantBirthDeath(lam, mu, psi, rho=rho, origin=org, survival=survival,
                                                removal_probability=torch.ones(1)).log_prob(nh)
-        return _ratio_claims("removal_one_equals_no_removal", _single(b), _single(a), tuple(b.shape), mk)
+        return _ratio_claims("removal_one_equals_no_removal_up_to_the_tree_space_constant", _single(b), _single(a) + (T - 1) * _log2(mk), tuple(b.shape), mk)
     return scn
 
 
@@ -748,6 +779,18 @@ def replay_options(args):
         got, want, base = _real_effect(cls_name, option)
     except Exception as e:
         return False, "real %s with option %s raises %s: %s" % (cls_name, option, type(e).__name__, e)
+    try:
+        mod, klass = _cls(cls_name)
+        import copy
+        b0 = klass.from_json(copy.deepcopy(_real_spec(cls_name)), {})
+        d0 = (klass("bd0", b0.tree_model, b0.R, b0.delta, b0.s, rho=b0.rho, origin=b0.origin) if cls_name == "BDSKModel"
+              else klass("bd0", b0.tree_model, b0.lambda_, b0.mu, b0.psi, b0.rho, b0.origin))
+        dv = float(d0().reshape(-1)[0])
+        if abs(dv - base) > 1e-9 * max(1.0, abs(dv)):
+            return False, ("real %s.from_json WITHOUT optional keys gives %.12g; the model constructed directly with the documented "
+                           "defaults gives %.12g (a default differs)" % (cls_name, base, dv))
+    except Exception as e:
+        return False, "real %s built from the specification without optional keys: %s: %s" % (cls_name, type(e).__name__, e)
     if isinstance(got, str):
         return False, "real %s.from_json with %r set, then model(): %s (directly constructed model gives %.12g)" % (cls_name, option, got, want)
     if abs(got - want) > 1e-9 * max(1.0, abs(want)):
@@ -1048,6 +1091,47 @@ def _oracle_vs_ode(trials, seed):
     return {"backend": "numeric", "cases": trials, "statement": "Stadler (2010) closed form ≡ RK4 master equations, worst relative gap %.2e" % worst}
 
 
+def _model_call_case(trial, seed):
+    """real BDSKModel on a real TimeTreeModel, (R, delta, s) as the class docstring defines them -> (model value, closed form)"""
+    import torchtree.evolution.bdsk as bd
+    from torchtree.core.parameter import Parameter
+    from torchtree.evolution.tree_model import TimeTreeModel
+    rng = random.Random(zlib.crc32(("model/%d/%d" % (trial, seed)).encode()))
+    lam, mu, psi = rng.uniform(0.5, 3), rng.uniform(0.2, 2), rng.uniform(0.1, 1.5)
+    rho = rng.choice([0.0, 0.3, 1.0])
+    surv = rng.random() < 0.5
+    x0 = 2.0 + rng.uniform(0.1, 2.0)
+    t = lambda v: torch.tensor(v, dtype=torch.get_default_dtype())
+    tm = TimeTreeModel.from_json(TimeTreeModel.json_factory("tree", _NEWICK, [1.0, 2.0], dict(_TAXA)), {})
+    delta = mu + psi
+    m = bd.BDSKModel("bdsk", tm, Parameter("R", t([lam / delta])), Parameter("delta", t([delta])), Parameter("s", t([psi / delta])),
+                     rho=Parameter("rho", t([rho])), origin=Parameter("origin", t([x0])), survival=surv)
+    got = float(m().reshape(-1)[0])
+    ages = sorted(_TAXA.values())
+    serial = [a for a in ages if not (a == 0.0 and rho > 0)]
+    want = S.log_density(x0, [1.0, 2.0], serial, len(ages) - len(serial), lam, mu, psi, rho, r=1, survival=surv)
+    return got, want, {"lambda": lam, "mu": mu, "psi": psi, "R": lam / delta, "delta": delta, "s": psi / delta, "rho": rho, "origin": x0, "survival": surv,
+                       "tree": _NEWICK, "dates": _TAXA}
+
+
+def replay_model_call(args):
+    got, want, desc = _model_call_case(args["trial"], args["seed"])
+    if abs(got - want) > 1e-9 * max(1.0, abs(want)):
+        return False, "real BDSKModel() = %.12f, constant-rate density at lambda=R*delta, mu=delta(1-s), psi=delta*s = %.12f on %s" % (got, want, desc)
+    return True, "agree: %.12f" % got
+
+
+def ob_model_call_numeric(trials, seed):
+    def fn():
+        for trial in range(trials):
+            got, want, desc = _model_call_case(trial, seed)
+            if abs(got - want) > 1e-9 * max(1.0, abs(want)):
+                raise Refuted("BDSKModel() = %.12f vs %.12f" % (got, want), witness=desc, confirmed=True,
+                              replay={"kind": "custom", "contract": "C09", "func": "replay_model_call", "args": {"trial": trial, "seed": seed}})
+        return {"backend": "numeric", "cases": trials, "statement": "real BDSKModel (R, delta, s) ≡ closed form at %d random points" % trials}
+    return fn
+
+
 def _refine_numeric_case(m, trial, seed):
     import torchtree.evolution.bdsk as bd
     rng = random.Random(zlib.crc32(("refine/%d/%d/%d" % (m, trial, seed)).encode()))
@@ -1196,11 +1280,26 @@ def _scenario_ob(name, factory, args, clause, seed, timeout=900, **kw):
         try:
             prove_scenario(scn_genealogy(factory, list(args)), seed=seed, replay=rp2, **kw)
         except Refuted as e2:
+            if e2.replay is None and isinstance(e2.witness, dict) and e2.witness.get("env"):
+                env = e2.witness["env"]
+                raise Refuted(e2.detail, e2.witness, dict(rp2, env=env), _fails_at(scn_genealogy(factory, list(args)), env))
             raise e2
         except Undecided as u:
             raise Undecided("refuted on unordered heights (%s) but the search for a witness that is a tree was undecided: %s" % (first.detail[:200], u))
         raise Undecided("refuted only for node heights that do not form a (caterpillar) tree: %s" % first.detail[:300])
     return Ob(name, "V", body, clause=clause, funcs=FUNCS, timeout=timeout)
+
+
+def _fails_at(scn, env):
+    """concrete run of the scenario (real code, real torch) at env: does a claim fail there?"""
+    from vt.scenario import MkNum, _num_claim_holds
+    try:
+        claims = scn(MkNum(env))
+    except Infeasible:
+        return None
+    except Exception:
+        return True
+    return any(not _num_claim_holds(cl, 1e-9) for cl in claims)
 
 
 def scn_genealogy(factory, args):
@@ -1288,11 +1387,14 @@ def obligations(tier, seed):
         sc("C09.single_epoch.rho0_contemporaneous[T=%d]" % T, "scn_single_epoch", (T, T, "zero", True, None),
            "single epoch ≡ constant-rate density (tips at the present, rho = 0: sampled through psi)")
     for T in (2, 3):
-        sc("C09.single_epoch.removal_one_equals_none[T=%d]" % T, "scn_removal_consistency", (T, 1, "sym", True),
-           "one density for one model: removal probability 1 ≡ no removal probability")
+        sc("C09.single_epoch.removal_one_vs_none[T=%d]" % T, "scn_removal_consistency", (T, 1, "sym", True),
+           "removal probability 1 ≡ no removal probability + (N-1) log 2 (sampled-ancestor tree-space constant, parameter-free)")
     for T, tips in ((2, [0.0, 1.0]), (3, [0.0, 0.0, 1.5]), (3, [0.0, 1.0, 2.0])):
         sc("C09.single_epoch.model_call[T=%d,tips=%s]" % (T, tips), "scn_model_call", (T, tips, "sym", True),
            "BDSKModel._call: (R, delta, s) parameterisation of the same density")
+
+    obs.append(Ob("C09.single_epoch.model_call.numeric", "B", ob_model_call_numeric(10 if thorough else 4, seed),
+                  clause="BDSKModel._call: (R, delta, s) parameterisation of the same density", funcs=FUNCS))
 
     # ---- the repository's constant model (V)
     for T in (2, 3):
